@@ -95,7 +95,14 @@ fn check(c: &SplitCase, obs: &mut Obs) -> Verdict {
     let b: BTreeSet<String> = c.b_secs.iter().cloned().filter(|s| all_secs.contains(s)).collect();
     let a: BTreeSet<String> = all_secs.difference(&b).cloned().collect();
     if a.is_empty() || b.is_empty() { return Verdict::Skip("single-security".into()); }
-    let opts = c.all.run_opts();
+    let mut opts = c.all.run_opts();
+    // a third of the multi-file cases (and so a ninth of all) start from a rate cache left by an earlier run in the middle of the history:
+    // which look-ups are served from it must not depend on which other securities are in the run
+    if c.layout.len() % 3 == 1 || (c.layout.is_empty() && c.all.rows.len() % 4 == 1) {
+        let mut ds: Vec<time::Date> = c.all.rows.iter().filter(|r| r.cur.trim().eq_ignore_ascii_case("USD") || r.ccur.trim().eq_ignore_ascii_case("USD")).map(|r| r.td).collect();
+        ds.sort();
+        if ds.len() >= 2 { opts.stale_cache_until = Some(ds[ds.len() / 2]); }
+    }
     let csv = files_of(&c.all, &c.layout).iter().map(|(n, t)| format!("--- {n}\n{t}")).collect::<Vec<_>>().join("");
     let (ra, rb, rab) = match (run(&sub_case(&c.all, &c.layout, &a), &opts), run(&sub_case(&c.all, &c.layout, &b), &opts), run(&(c.all.clone(), c.layout.clone()), &opts)) { (Ok(x), Ok(y), Ok(z)) => (x, y, z), (Err(v), _, _) | (_, Err(v), _) | (_, _, Err(v)) => return v };
     let (sa, sb, sab) = match (ra, rb, rab) {
@@ -145,11 +152,12 @@ fn check(c: &SplitCase, obs: &mut Obs) -> Verdict {
     if !c.planted.is_empty() { obs.class(format!("planted:{}", c.planted.split(':').nth(1).unwrap_or(""))); }
     if !c.all.opening.is_empty() { obs.class("opening-position"); }
     if !c.layout.is_empty() { obs.class(format!("files:{}", files_of(&c.all, &c.layout).len())); }
+    if opts.stale_cache_until.is_some() { obs.class("rate-cache-left-by-an-earlier-run"); }
     Verdict::Pass
 }
 
 pub fn def() -> PropDef {
-    let mut d = PropDef::new("C08", "a generated multi-security input is split into two inputs A and B over disjoint symbols (B optionally carrying a planted bookkeeping failure from the C04 list, or a split combination the tool refuses), keeping the original interleaving for A+B (a third of the cases spread the rows over two or three input files, the same spread in all three runs); three runs. Every cell of every table of A (resp. B) must be identical in A+B; aggregate(A+B) per year = aggregate(A) + aggregate(B) = sum of the accepted securities' own yearly footers, within 1e-9; A+B must not fail as a whole when only one half has a problem. Non-trivial = B contains a bookkeeping failure and A has at least one gain-bearing row. Distinct = distinct case content.");
+    let mut d = PropDef::new("C08", "a generated multi-security input is split into two inputs A and B over disjoint symbols (B optionally carrying a planted bookkeeping failure from the C04 list, or a split combination the tool refuses), keeping the original interleaving for A+B (a third of the cases spread the rows over two or three input files, the same spread in all three runs; some start from an exchange-rate cache as an earlier run in the middle of the history would have left it); three runs. Every cell of every table of A (resp. B) must be identical in A+B; aggregate(A+B) per year = aggregate(A) + aggregate(B) = sum of the accepted securities' own yearly footers, within 1e-9; A+B must not fail as a whole when only one half has a problem. Non-trivial = B contains a bookkeeping failure and A has at least one gain-bearing row. Distinct = distinct case content.");
     d.assumptions = vec!["affiliate display spelling is normalised (first spelling seen wins in the tool; not a figure)"];
     d.subs.push(Box::new(Sub::<SplitCase> { name: "split", cases_quick: 36_000, cases_thorough: 500_000, strategy: Box::new(strategy), to_json: SplitCase::to_json, from_json: SplitCase::from_json, check }));
     d
